@@ -833,7 +833,7 @@ fn line_vector(p1: Point<F26Dot6>, p2: Point<F26Dot6>, is_parallel: bool) -> Poi
         // perpendicular line.
         let c = b;
         b = a;
-        a = -c;
+        a = c.wrapping_neg();
     }
     math::normalize14(a, b)
 }
